@@ -103,7 +103,9 @@ impl Module for Node {
             let name = c.rsplit_once('.').map_or(c.as_str(), |x| x.1);
             me.child(name).map(|m| same(&m, c)).unwrap_or(false)
         }) && me.child("no-such-child").is_err();
-        let name_ok = me.name() == self.path.rsplit_once('.').map_or(self.path.as_str(), |x| x.1);
+        // a module finds itself through its parent
+        let self_ok = me.parent().map_or(true, |p| p.child(&me.name()).map(|m| same(&m, &self.path)).unwrap_or(false));
+        let name_ok = self_ok && me.name() == self.path.rsplit_once('.').map_or(self.path.as_str(), |x| x.1);
         self.log.lock().unwrap().push(format!(
             "end:{}:parent_ok={parent_ok}:children_ok={children_ok}:path_ok={}:name_ok={name_ok}",
             self.path,
